@@ -72,24 +72,6 @@ impl Step {
             Step::Harvest => "Harvest".into(),
         }
     }
-
-    /// short class name (no parameters) for keys
-    pub fn kind(&self) -> &'static str {
-        match self {
-            Step::ChildWrite { stream: 1, .. } => "ChildOut",
-            Step::ChildWrite { .. } => "ChildErr",
-            Step::ChildRead { .. } => "ChildReadIn",
-            Step::ChildClose { .. } => "ChildClose",
-            Step::ChildExit(_) => "ChildExit",
-            Step::Read { stream: 1, .. } => "ReadOut",
-            Step::Read { .. } => "ReadErr",
-            Step::WriteIn { .. } => "WriteIn",
-            Step::CloseIn => "CloseIn",
-            Step::Wait => "WaitPoll",
-            Step::Output => "OutputPoll",
-            Step::Harvest => "Harvest",
-        }
-    }
 }
 
 #[derive(Clone, Copy, Debug, PartialEq, Eq)]
